@@ -237,6 +237,7 @@ INT_RANGES = {
     "usize": (0, 2**64 - 1), "u128": (0, 2**128 - 1),
     "i8": (-2**7, 2**7 - 1), "i16": (-2**15, 2**15 - 1), "i32": (-2**31, 2**31 - 1),
     "i64": (-2**63, 2**63 - 1), "isize": (-2**63, 2**63 - 1), "i128": (-2**127, 2**127 - 1),
+    "char": (0, 0x10FFFF),
 }
 
 
@@ -463,6 +464,16 @@ class Exec:
             return mk_int(int(m.group(1)), m.group(2))
         if txt in ("true", "false"):
             return mk_bool(txt == "true")
+        mch = re.fullmatch(r"'(\\u\{([0-9a-fA-F]+)\}|\\.|[^\\])'", txt)
+        if mch:
+            body = mch.group(1)
+            if mch.group(2):
+                cp = int(mch.group(2), 16)
+            elif body.startswith("\\"):
+                cp = {"n": 10, "r": 13, "t": 9, "0": 0, "\\": 92, "'": 39, '"': 34}.get(body[1], ord(body[1]))
+            else:
+                cp = ord(body)
+            return mk_int(cp, "char")
         if txt.startswith('"'):
             raw = txt[1:txt.rindex('"')]
             raw = re.sub(r"\\u\{([0-9a-fA-F]+)\}", lambda mm: chr(int(mm.group(1), 16)), raw)
